@@ -320,3 +320,34 @@ Theorem C17_documented :
                 sonode_eqv (VpH pa h w3 !! p) (B0 !! p)).
 Proof. exact c17_documented. Qed.
 Print Assumptions C17_documented.
+
+(* ------------------------------------------------------------------ *)
+(** ** the layering of the constructors New / NewWithFS
+    [ncfg q = mkConfig None [q] q]: HiddenFS directly over the OS filesystem
+    (no PrefixFS), the backup location [q] - an absolute cleaned path other
+    than "/" - hidden from the base and the root of the backup filesystem.
+    The base view [V0H q] (Spec/ViewRoot.v) is the WHOLE filesystem except the
+    location and what lies below it; it shows link targets as stored ([tn_0],
+    the identity: without PrefixFS nothing cleans them).  The root "/" is a
+    proper ancestor of the location ([anc_h q]): it cannot be removed (EBUSY)
+    or renamed.  Proofs/LawsNew.v. *)
+From BFS Require Import Spec.ViewHidden Spec.ViewRoot Proofs.LawsNew.
+
+Theorem C17_new :
+  forall q, hidden_ok q ->
+  forall B0, links_ok tn_0 clean (acc_0 q) (acc_p q) B0 -> all_small B0 -> swf B0 ->
+  loc_ok (hid_h q) (anc_h q) B0 ->
+  forall w p, Inv (V0H q) (Vp q) B0 w -> snolinkpar (V0H q w) p -> p <> s_root ->
+  entry_ok tn_0 clean (acc_0 q) (acc_p q) p (V0H q w !! p) -> orig_not_dir_cond w p ->
+  parents_original (V0H q) B0 w p ->
+  forall r w1 ops w2,
+    b_force_backup (cfg_base (ncfg q)) (cfg_backup (ncfg q)) p w = (r, w1) ->
+    good_run (cfg_base (ncfg q)) (cfg_backup (ncfg q)) (V0H q) w1 ops w2 ->
+    exists w3, b_rollback (cfg_base (ncfg q)) (cfg_backup (ncfg q)) w2 = (MOk tt, w3) /\
+               sonode_eqv (V0H q w3 !! p) (V0H q w !! p) /\
+               (forall q', q' <> p -> q' <> s_root -> sonode_eqv (V0H q w3 !! q') (B0 !! q')) /\
+               (forall q', q' <> s_root -> Vp q w3 !! q' = None) /\ w_infos w3 = ∅ /\
+               (r <> MOk tt -> (forall fi, w_infos w !! p <> Some (Some fi)) ->
+                sonode_eqv (V0H q w3 !! p) (B0 !! p)).
+Proof. exact c17_new. Qed.
+Print Assumptions C17_new.
